@@ -84,8 +84,8 @@ func TestVerif_C11(t *testing.T) {
 	if r.Thorough() {
 		small = []int{0, 1, 2, 3, 4, 5, 8, 16, 33, 64}
 	}
-	nBig, nDirected := r.Pick(4, 14), r.Pick(60, 160)
-	r.SetRule(fmt.Sprintf("shard with and without write-cache: payload lengths %v with every request of the four modes (values 0..len+2) plus huge values, %d larger payloads with %d boundary-directed requests each; objects put through Shard.Put (also >128 KiB objects that become plain files) or planted as zstd / combined files in the blob storage; Shard.GetRangeStream, ReadRange, ReadPayloadRange, ReadObject, GetRangeStreamWithMetadataLookup with/without metabase lookup and header interception; undefined requests must get the blob storage's answer; then batches of 2..8 range reads with overlapping answer lifetimes (seeded schedule of issue / read chunk / abandon / close) and rounds of concurrent reads, judged by the same resolver; distinct = (write-cache on/off, api, format, length class, mode, request shape)", small, nBig, nDirected))
+	nBig, nDirected, nMB := r.Pick(4, 14), r.Pick(60, 160), r.Pick(2, 5)
+	r.SetRule(fmt.Sprintf("shard with and without write-cache: payload lengths %v with every request of the four modes (values 0..len+2) plus huge values, %d larger payloads with %d boundary-directed requests each; objects put through Shard.Put (also >128 KiB objects that become plain files) or planted as zstd / combined files in the blob storage, among them %d compressed objects whose zstd frame has many blocks (payloads of 0.3..1.5 MiB, compressed the way old nodes did); Shard.GetRangeStream, ReadRange, ReadPayloadRange, ReadObject, GetRangeStreamWithMetadataLookup with/without metabase lookup and header interception; undefined requests must get the blob storage's answer; then batches of 2..8 range reads with overlapping answer lifetimes (seeded schedule of issue / read chunk / abandon / close) and rounds of concurrent reads, judged by the same resolver; distinct = (write-cache on/off, api, format, length class, mode, request shape)", small, nBig, nDirected, nMB))
 	cnr, owner := verifkit.RandCID(r.Rand("ids", 0)), verifkit.RandUser(r.Rand("ids", 1))
 	k := 0
 	for _, wcOn := range []bool{false, true} {
@@ -141,6 +141,15 @@ func TestVerif_C11(t *testing.T) {
 			add("big", b, p, rng.IntN(3), func(o *vf11.Obj) []vf11.Req {
 				return append(vf11.Directed(uint64(l), vf11.Marks(o), r.Rand("directed", b), nDirected), vf11.Huge(uint64(l), r.Rand("hugebig", b))...)
 			})
+		}
+		// compressed objects whose frame has many blocks (vf11/c11_multiblock.go)
+		mbFiles, mbMembers := vf11.MultiBlockSet(r, fmt.Sprint("shard", wcOn), cnr, owner, nMB)
+		for i, o := range append(append([]*vf11.Obj(nil), mbFiles...), mbMembers...) {
+			items = append(items, item{o, vf11.MultiBlockReqs(r, fmt.Sprint("shard", wcOn), i, o, nDirected), true})
+		}
+		nLarge := 3*nBig + 2*nMB // the items at the end of the list that have larger payloads
+		if err := vf11.PlantMultiBlock(root, depth, mbFiles, mbMembers); err != nil {
+			t.Fatal(err)
 		}
 		for i := 0; i < len(comb); i += 4 {
 			grp := comb[i:min(i+4, len(comb))]
@@ -237,7 +246,7 @@ func TestVerif_C11(t *testing.T) {
 		vf11.OverlapPhase(r, layer, 0, r.Pick(200, 800), r.Pick(2, 8), func(rng *rand.Rand) vf11.Call {
 			it := items[rng.IntN(len(items))]
 			if rng.IntN(2) == 0 { // larger payloads half of the time
-				it = items[len(items)-1-rng.IntN(3*nBig)]
+				it = items[len(items)-1-rng.IntN(nLarge)]
 			}
 			o := it.o
 			req := vf11.RandReq(rng, o)
